@@ -79,6 +79,21 @@ class Guards:
         out = []
         for test, pol in cfg.guards(cn):
             out += split_cond(test, pol)
+        # a test stored in a local (`is_top = self._is_top_level_aggregate(aggregate)` .. `if is_top:`) is the test itself: a name with a
+        # single definition in the function that is not a parameter reads as its defining expression
+        for _ in range(4):
+            new, changed = [], False
+            for e, pol in out:
+                if isinstance(e, ast.Name) and e.id not in f.params + f.kwonly:
+                    defs = _defs_of(f, e.id)
+                    if len(defs) == 1 and not (isinstance(defs[0], ast.Constant) and defs[0].value is Ellipsis):
+                        new += split_cond(defs[0], pol)
+                        changed = True
+                        continue
+                new.append((e, pol))
+            out = new
+            if not changed:
+                break
         return out
 
     # ---- flag tracing ---------------------------------------------------------------------
